@@ -89,7 +89,8 @@ fn weight(op: &Op, lab: &Lab) -> u32 {
         Op::BodyDone(_) => 10,
         Op::Close(_) => 2,
         Op::Bg => 12,
-        Op::Sleep(_) | Op::Advance(_) => 0,
+        Op::Sleep(_) => 0,
+        Op::Advance(_) => 4,
     }
 }
 
@@ -165,7 +166,7 @@ impl Lab {
         let w = lock(&self.world);
         let mut v = Vec::new();
         for r in &w.reqs {
-            v.push(crate::report::hash_of(&(r.state, r.h2, r.polls.min(2), r.dial, r.respond.is_some(), r.responded, r.body_done, &r.origin, r.conn, r.must_use_idle, r.expect_conn.map(|x| x.0), r.waits_on)));
+            v.push(crate::report::hash_of(&(r.state, r.h2, r.polls.min(2), r.dial, r.respond.is_some(), r.responded, r.body_done, &r.origin, r.conn, r.must_use_idle, r.waits_on)));
         }
         for c in &w.conns {
             v.push(crate::report::hash_of(&(c.alive(), c.open(), c.h2, c.busy, c.holders, c.ready_reported_step >= c.released_step, c.upgraded, &c.origin, c.live_handles.min(4), c.to_idle_at_ready, c.handoffs.min(2))));
@@ -397,6 +398,60 @@ pub fn expiry_scenarios(seed: u64, n: usize) -> Vec<Scenario> {
     out
 }
 
+/// timeout-layer scenarios (virtual time, C19)
+pub fn timeout_scenarios(seed: u64, n_random: usize) -> Vec<Scenario> {
+    let mut rng = StdRng::seed_from_u64(seed ^ 0x7103);
+    let mut out = Vec::new();
+    for d in [0u64, 1, 50, 10_000] {
+        for cont in [true, false] {
+            let mut c = default_config();
+            c.continue_after_preemption = cont;
+            c.timeout_layer_ms = Some(d);
+            let mk = |name: &str, ops: Vec<Op>| {
+                let mut s = Scenario::new(name, c.clone(), ops);
+                s.paused = true;
+                s
+            };
+            let before = d.saturating_sub(1);
+            // stage: waiting for own dial
+            out.push(mk("timeout-waiting-for-own-dial", vec![Op::Issue { origin: 0, h2: false }, Op::Poll(0), Op::Advance(d), Op::Poll(0)]));
+            out.push(mk("timeout-never-polled-before-deadline", vec![Op::Issue { origin: 0, h2: false }, Op::Advance(d), Op::Poll(0)]));
+            // stage: pure waiter on another request's HTTP/2 attempt
+            out.push(mk("timeout-pure-waiter", vec![Op::Issue { origin: 0, h2: true }, Op::Poll(0), Op::Issue { origin: 0, h2: true }, Op::Poll(1), Op::Advance(d), Op::Poll(1), Op::Poll(0)]));
+            // stage: handshaking
+            out.push(mk("timeout-handshaking", vec![Op::Issue { origin: 0, h2: false }, Op::Poll(0), Op::DialOk(0), Op::Poll(0), Op::Advance(d), Op::Poll(0)]));
+            // stage: sent, awaiting the response head
+            let sent = vec![Op::Issue { origin: 0, h2: false }, Op::Poll(0), Op::DialOk(0), Op::Poll(0), Op::HsOk(0), Op::Poll(0)];
+            let mut o = sent.clone();
+            o.extend([Op::Advance(d), Op::Poll(0)]);
+            out.push(mk("timeout-awaiting-response", o));
+            // inner resolves strictly before the deadline, polled after it
+            let mut o = sent.clone();
+            o.extend([Op::Advance(before), Op::Respond(0), Op::Advance(5), Op::Poll(0)]);
+            out.push(mk("inner-before-deadline-polled-late", o));
+            // inner resolves exactly at / after the deadline
+            let mut o = sent.clone();
+            o.extend([Op::Advance(d), Op::Respond(0), Op::Poll(0)]);
+            out.push(mk("inner-at-deadline", o));
+            let mut o = sent.clone();
+            o.extend([Op::Advance(d + 3), Op::Respond(0), Op::Poll(0)]);
+            out.push(mk("inner-after-deadline", o));
+            // HTTP/2 owner times out while a waiter (with a longer life) depends on it
+            out.push(mk("timeout-owner-with-waiter", vec![Op::Issue { origin: 0, h2: true }, Op::Poll(0), Op::Advance(d / 2 + 1), Op::Issue { origin: 0, h2: true }, Op::Poll(1), Op::Advance(d / 2 + 1), Op::Poll(0), Op::Poll(1)]));
+            for _ in 0..n_random {
+                let mut s = mk("timeout-random-walk", vec![]);
+                s.random = Some((rng.gen(), rng.gen_range(8..40)));
+                s.max_reqs = rng.gen_range(1..5);
+                if rng.gen_bool(0.3) {
+                    s.fail_dials = vec![rng.gen_range(0..3)];
+                }
+                out.push(s);
+            }
+        }
+    }
+    out
+}
+
 // ---------------------------------------------------------------------------------------------
 // engine
 // ---------------------------------------------------------------------------------------------
@@ -410,6 +465,7 @@ fn rule(prop: &str) -> &'static str {
         "C05" => "PoolLab hand-off monitor: closed-before-issue / closed-before-hand-back hand-offs, and (real sleeps, one-sided 30 ms margins) hand-off of a connection idle longer than idle_timeout; non-trivial = a Close op or sleep occurred; distinct by abstract event-trace hash",
         "C06" => "PoolLab hand-off monitor: normalised (scheme, authority) of the dialed URI vs the request URI at every hand-off over origin sets differing in scheme/port/host/case; non-trivial = >= 2 origins and >= 2 hand-offs; distinct by abstract event-trace hash",
         "C14" => "PoolLab: freed HTTP/1 connection must be taken by the head waiter at its next poll; abandoned attempts complete in background and stay pooled (continue_after_preemption) or are dropped at once and leave nothing; non-trivial = a freed connection was offered to a waiter, a pre-emption, or a cancel with outstanding dial; distinct by abstract event-trace hash",
+        "C19" => "PoolLab with the public TimeoutLayer around ConnectionPoolService under the paused tokio clock: durations {0,1,50,10000} ms x both pre-emption settings x stage at expiry (not yet polled, own dial, waiting on another attempt, handshaking, awaiting response) + seeded random walks with Advance ops; oracle at every poll: pending at/after the deadline, timeout before the deadline, timeout although the inner result was ready before the deadline, missing wake-up at the deadline, hand-off after expiry; followed by drain and probe; non-trivial = a timeout fired or an inner result passed through; distinct by abstract event-trace hash",
         "C15" => "PoolLab: hook snapshot of idle-list lengths after every step <= max_idle_per_host, plus boundary count of released/ready/open connections nobody waits for; non-trivial = >= 2 hand-offs; distinct by abstract event-trace hash",
         _ => "PoolLab",
     }
@@ -424,14 +480,15 @@ fn relevant(prop: &str, o: &Outcome) -> bool {
         "C04" => c("issue_with_idle_available") + c("issue_h2_pure_waiter") + c("cancel_before_first_poll") + c("cancel_during_checkout") > 0,
         "C05" => c("close_while_held") + c("close_while_body_outstanding") + c("close_while_idle_or_queued") + c("close_other") > 0 || o.prefix.iter().any(|op| matches!(op, Op::Sleep(_))),
         "C06" => c("handoffs") >= 2,
-        "C14" => c("c14_freed_connection_offered_to_waiter") + c("preemptions") + c("cancels_with_outstanding_dial") > 0,
+        "C19" => c("timeouts") + c("c19_inner_ok_passed_through") + c("c19_inner_error_passed_through") > 0,
+        "C14" => c("c14_freed_connection_offered_to_waiters") + c("preemptions") + c("cancels_with_outstanding_dial") > 0,
         _ => true,
     }
 }
 
 pub fn fold(rep: &mut Report, args: &Args, sc: &Scenario, o: &Outcome) {
     for prop in LAB_PROPS {
-        if !args.wants(prop) || prop == "C19" {
+        if !args.wants(prop) || (prop == "C19") != sc.cfg.timeout_layer_ms.is_some() {
             continue;
         }
         if prop == "C06" && sc.cfg.origins.len() < 2 {
@@ -445,7 +502,9 @@ pub fn fold(rep: &mut Report, args: &Args, sc: &Scenario, o: &Outcome) {
         }
         p.count("steps_executed", o.all_ops as u64);
         p.count(&format!("scenarios_{}", sc.name.split('-').next().unwrap_or("x")), 1);
-        for v in o.violations.iter().filter(|v| v.prop == prop) {
+        // in timeout scenarios the follow-up obligations of C19 are observed by the C01/C03 monitors
+        let follow_up = |v: &&Violation| prop == "C19" && (v.signature.starts_with("probe-not-served") || v.signature.starts_with("handoff:request-in-state") || v.signature.starts_with("stranded"));
+        for v in o.violations.iter().filter(|v| v.prop == prop || follow_up(v)) {
             p.violation(v.signature.clone(), format!("{} | scenario '{}' prefix: {}", v.message, sc.name, o.prefix.iter().map(|x| x.short()).collect::<Vec<_>>().join(" ")), sc.to_json(&o.prefix));
         }
         if rel && p.samples.len() < 4 && (o.trace_hash % 97 == 0 || p.samples.is_empty()) {
@@ -601,6 +660,17 @@ pub fn run(args: &Args) -> Report {
         let exr = &ex;
         let part = crate::report::parallel(args.threads, ex.len() as u64, "poollab", |i, r| {
             let sc = &exr[i as usize];
+            let o = run_scenario(sc, false);
+            fold(r, args, sc, &o);
+        });
+        rep.merge(part);
+    }
+
+    if args.wants("C19") {
+        let ts = timeout_scenarios(args.seed, if thorough { 20_000 } else { 1_500 });
+        let tsr = &ts;
+        let part = crate::report::parallel(args.threads, ts.len() as u64, "poollab", |i, r| {
+            let sc = &tsr[i as usize];
             let o = run_scenario(sc, false);
             fold(r, args, sc, &o);
         });
